@@ -92,17 +92,22 @@ def proposal_ok(rq, ae, classes, maxlen):
     return len(raw) == rq.total_length() and len(seen_cls) == len(want)
 
 
-def reply_for(rq, results, tsi):
+def reply_for(rq, results, tsi, order=None):
+    """order: permutation of the result items (PS3.8 ties results to proposals by context id, not by position)"""
     items = [pdu.ApplicationContextItem(A.APP_CTX)]
+    acs = []
     for i, it in enumerate(rq.variable_items[1:-1]):
         r = results[i % len(results)]
-        items.append(pdu.PresentationContextItemAC(it.context_id, r,
-                                                   pdu.TransferSyntaxSubItem(TSU[tsi[i % len(tsi)]] if r == 0 else '')))
+        acs.append(pdu.PresentationContextItemAC(it.context_id, r,
+                                                 pdu.TransferSyntaxSubItem(TSU[tsi[i % len(tsi)]] if r == 0 else '')))
+    if order is not None:
+        acs = [acs[j] for j in order if j < len(acs)]
+    items += acs
     items.append(A.user_info(16384))
     return pdu.AAssociateAcPDU(rq.called_ae_title, rq.calling_ae_title, items)
 
 
-def run_request(ae, mx, results, tsi):
+def run_request(ae, mx, results, tsi, order=None):
     A.patch_provider([])
     rqr = asceprovider.AssociationRequester(ae, mx, REMOTE)     # the real constructor; provider = scripted recorder
     state = {}
@@ -110,7 +115,7 @@ def run_request(ae, mx, results, tsi):
     def receive(timeout):
         # the reply is derived from the proposal the requester has just sent
         state['rq'] = rqr.dul.sent[0]
-        return reply_for(state['rq'], results, tsi)
+        return reply_for(state['rq'], results, tsi, order)
     rqr.dul.receive = receive
     rqr.request()
     return rqr, state['rq']
@@ -215,6 +220,70 @@ def reply_sequence(r0: int, a1: bool, t0: int, t1: int) -> bool:
     ok2, n2 = usable_ok(second, rq2, classes, results, tsi)
     ok = ok1 and n1 == 2 and ok2 and proposal_ok(rq2, ae, classes, 16384)
     deep(ok and n2 == 0)
+    return ok
+
+
+import itertools
+PERMS = list(itertools.permutations(range(4)))
+
+
+@cond(bounds='fixed configuration of four classes (add_scu([c1, c2]) + add_scp([c3]) + add_scu([c4])); the peer answers the '
+             'four contexts in ANY order (symbolic index over the 24 permutations of its result items - results belong '
+             'to proposals by context id), results accept / reject symbolic per context, transfer syntax symbolic',
+      timeout=300)
+def reply_reordered(perm: int, a0: bool, a1: bool, a2: bool, a3: bool, t0: int, t1: int) -> bool:
+    """
+    pre: 0 <= perm < 24 and 0 <= t0 <= 1 and 0 <= t1 <= 1
+    post: _
+    """
+    ae = new_ae('LOCAL_AE', TSU[:2], 16384)
+    classes = configure(ae, [2, 1, 1], [0, 1, 0])
+    results = (0 if a0 else 3, 0 if a1 else 1, 0 if a2 else 4, 0 if a3 else 2)
+    tsi = (pick(t0, 0, 1), pick(t1, 0, 1), 1 - pick(t0, 0, 1), 0)
+    order = PERMS[pick(perm, 0, 23)]
+    rqr, rq = run_request(ae, 16384, results, tsi, order)
+    ok, n_acc = usable_ok(rqr, rq, classes, results, tsi)
+    deep(ok and n_acc == 2 and perm == 23)
+    return ok
+
+
+@cond(bounds='the SAME requester object asks again after a refusal: first request answered with A-ASSOCIATE-RJ (result / '
+             'source / reason symbolic), second request answered with an accept whose per-context results are symbolic: '
+             'the second proposal is as well-formed as the first and what is usable follows from the second reply',
+      timeout=240)
+def request_again(res: int, src: int, rsn: int, a0: bool, a1: bool, t0: int) -> bool:
+    """
+    pre: 1 <= res <= 2 and 1 <= src <= 3 and 0 <= rsn <= 255 and 0 <= t0 <= 1
+    post: _
+    """
+    ae = new_ae('LOCAL_AE', TSU[:2], 16384)
+    classes = configure(ae, [2, 1], [0, 0])
+    A.patch_provider([])
+    rqr = asceprovider.AssociationRequester(ae, 16384, REMOTE)
+    results = (0 if a0 else 3, 0 if a1 else 1, 0)
+    tsi = (pick(t0, 0, 1), 1, 0)
+    state = {'n': 0}
+
+    def receive(timeout):
+        state['n'] += 1
+        state['rq%d' % state['n']] = rqr.dul.sent[-1]
+        if state['n'] == 1:
+            return pdu.AAssociateRjPDU(res, src, rsn)
+        return reply_for(rqr.dul.sent[-1], results, tsi)
+    rqr.dul.receive = receive
+    refused = False
+    try:
+        rqr.request()
+    except exceptions.AssociationRejectedError as e:
+        refused = (e.result, e.source, e.diagnostic) == (res, src, rsn)
+    ok = refused and len(rqr.dul.sent) == 1 and not rqr.accepted_contexts
+    rqr.request()
+    ok = ok and len(rqr.dul.sent) == 2 and state['n'] == 2
+    ok = ok and proposal_ok(state['rq1'], ae, classes, 16384) and proposal_ok(state['rq2'], ae, classes, 16384)
+    ok = ok and state['rq1'].encode() == state['rq2'].encode()
+    ok2, n_acc = usable_ok(rqr, state['rq2'], classes, results, tsi)
+    ok = ok and ok2
+    deep(ok and n_acc == 2)
     return ok
 
 
